@@ -14,12 +14,13 @@ def Plain (s : Str) : Prop := s.all plainChar = true
 
 instance (s : Str) : Decidable (Plain s) := by unfold Plain; infer_instance
 
-/-- text made of plain characters and of escaped pipes `\|` (every backslash is followed by a pipe, every pipe is
-    preceded by a backslash that escapes it) -/
+/-- text made of plain characters, escaped pipes `\|` and escaped backslashes `\\` (every backslash starts one of
+    these two escapes, every pipe is escaped) -/
 inductive EscCell : Str → Prop where
   | nil : EscCell []
   | plain (c : Char) (s : Str) : plainChar c = true → EscCell s → EscCell (c :: s)
   | esc (s : Str) : EscCell s → EscCell ('\\' :: '|' :: s)
+  | bs (s : Str) : EscCell s → EscCell ('\\' :: '\\' :: s)
 
 /-- decision procedure for `EscCell` -/
 def escCellB : Str → Bool
@@ -27,7 +28,7 @@ def escCellB : Str → Bool
   | c :: s =>
     if c = '\\' then
       match s with
-      | d :: r => d = '|' && escCellB r
+      | d :: r => (d = '|' || d = '\\') && escCellB r
       | [] => false
     else plainChar c && escCellB s
 
@@ -38,6 +39,9 @@ instance (s : Str) : Decidable (CodeBody s) := by unfold CodeBody; infer_instanc
 
 /-- a run of `n` backticks -/
 def ticks (n : Nat) : Str := List.replicate n '`'
+
+/-- `k` escaped backslashes `\\` -/
+def escBackslashes (k : Nat) : Str := List.replicate (2 * k) '\\'
 
 /-- a run of `n` dashes -/
 def dashes (n : Nat) : Str := List.replicate n '-'
